@@ -156,6 +156,11 @@ impl<K: Eq, V, S> HashMap<K, V, S> {
     pub fn clear(&mut self) {
         self.items.clear();
     }
+    pub fn extend(&mut self, other: HashMap<K, V, S>) {
+        for (k, v) in other.items {
+            self.insert(k, v);
+        }
+    }
     pub fn entry(&mut self, k: K) -> hash_map::Entry<'_, K, V> {
         match self.find(&k) {
             Some(i) => hash_map::Entry::Occupied(hash_map::OccupiedEntry { items: &mut self.items, idx: i }),
